@@ -309,8 +309,15 @@ where
 
     for tx in block.vtx.into_iter() {
         let txid = tx.txid();
-        let tx_index =
-            TxIndex::try_from(tx.index).expect("Cannot fit more than 2^16 transactions in a block");
+        // The transaction index is supplied by the (untrusted) server; a value that does not fit
+        // the 2^16 transactions-per-block bound is a malformed field, reported like the other
+        // malformed compact transaction fields rather than by panicking the scanner.
+        let tx_index = TxIndex::try_from(tx.index).map_err(|_| ScanError::EncodingInvalid {
+            at_height: cur_height,
+            txid,
+            pool_type: ShieldedPool::Sapling,
+            index: 0,
+        })?;
 
         // A compact spend carries its nullifier as raw bytes; validate them up front so that a
         // malformed (wrong-length) nullifier from an untrusted server yields a handleable
